@@ -107,6 +107,19 @@ def p4(ctx):
             metas = [r for r in res.log if r["kind"] == "ret0" and not r["chain"] and unwrap_variant(r["value"], "Ok", "Some") is not None and e["result"] in ok_cas_facts(ctx.facts_of(ev, r))]
             okm = bool(metas) and all(struct_get(unwrap_variant(r["value"], "Ok", "Some"), "memory_offset") == e["expected"] for r in metas if tag(unwrap_variant(r["value"], "Ok", "Some")) == "struct")
             yield Ob(key_of("C02-P4", b.path, "offset-is-cas-expected"), okm, "the handed-out memory_offset is the value the successful CAS replaced", ctx.loc(e))
+            # nothing the CAS publishes or the hand-out uses comes from an older read of the cursor: a retry after a lost CAS recomputes everything (padding,
+            # end) from the value it now expects - a term hoisted out of the retry loop (`let padding = align_offset(first_read) - first_read`) reserves
+            # the wrong range as soon as another thread moved the cursor in between
+            stale = []
+            def grab(t, e=e):
+                if tag(t) == "load" and len(t) > 2 and is_cursor(t[2]) and t != e["expected"]:
+                    stale.append(t)
+                return None
+            for v in [e["new"]] + [unwrap_variant(r["value"], "Ok", "Some") for r in metas]:
+                if isinstance(v, (tuple, Lin)):
+                    term_map(v, grab)
+            yield Ob(key_of("C02-P4", b.path, "no-stale-cursor-read"), not stale, "the new cursor and the handed-out extent use no read of the cursor other than the CAS's expected value%s" %
+                     (": %s" % short(stale[0], 80) if stale else ""), ctx.loc(e))
     # who stores the cursor: plain atomic stores only in rewind / (clear via Memory) - not in alloc/dealloc paths
     n = 0
     for b in ctx.facts.find(r"^(sync::Arena::|<sync::Arena as )"):
